@@ -30,10 +30,12 @@ import (
 	"bytes"
 	"errors"
 	"fmt"
+	"reflect"
 	"strings"
 	"sync"
 	"testing"
 	"time"
+	"unsafe"
 
 	"github.com/ossrs/go-oryx-lib/amf0"
 )
@@ -164,19 +166,28 @@ func vC04Needs(q vC04Req) bool { return (q.name == 1 || q.name == 2) && q.tid > 
 func vC04WireLen(q vC04Req, cs uint32) int {
 	var buf vC04Buf
 	ref := NewProtocol(&buf)
-	ref.output.opt.chunkSize = cs
+	skip := 0
+	if cs != 128 {
+		// through the public path: the reference instance announces the same chunk size first
+		sc := NewSetChunkSize()
+		sc.ChunkSize = cs
+		if err := ref.WritePacket(sc, 0); err != nil {
+			panic(err)
+		}
+		skip = buf.Len()
+	}
 	if err := ref.WritePacket(vC04Request(q), 0); err != nil {
 		panic(err)
 	}
-	return buf.Len()
+	return buf.Len() - skip
 }
 
+// The responses the driver injects are well-formed _result messages produced by the library's own
+// encoder, so DecodeMessage can only fail on them in the lookup of the request: (nil packet, error)
+// IS the "no matched request" outcome -- classified by structure, not by the wording of the error.
 func vC04Classify(pkt Packet, err error) vC04Result {
 	if err != nil {
-		if strings.Contains(err.Error(), "No matched request") {
-			return vC04Result{0, err.Error()}
-		}
-		return vC04Result{-1, err.Error()}
+		return vC04Result{0, err.Error()}
 	}
 	switch pkt.(type) {
 	case *ConnectAppResPacket:
@@ -216,10 +227,36 @@ func vC04ParseReqs(l vSx) ([]vC04Req, bool) {
 	return reqs, len(reqs) <= 4096
 }
 
+// number of entries in the transaction table, read under its lock.  The table and the lock are found
+// by TYPE (the map and the sync.Mutex that sits beside it, anywhere inside Protocol), so renaming the
+// unexported fields does not break the driver.
 func vC04TableSize(p *Protocol) int {
-	p.input.ltransactions.Lock()
-	defer p.input.ltransactions.Unlock()
-	return len(p.input.transactions)
+	var find func(v reflect.Value) (reflect.Value, *sync.Mutex, bool)
+	find = func(v reflect.Value) (reflect.Value, *sync.Mutex, bool) {
+		if v.Kind() != reflect.Struct {
+			return reflect.Value{}, nil, false
+		}
+		for i := 1; i < v.NumField(); i++ {
+			if v.Field(i).Type() == reflect.TypeOf(sync.Mutex{}) && v.Field(i-1).Kind() == reflect.Map {
+				return v.Field(i - 1), (*sync.Mutex)(unsafe.Pointer(v.Field(i).UnsafeAddr())), true
+			}
+		}
+		for i := 0; i < v.NumField(); i++ {
+			if f := v.Field(i); f.Kind() == reflect.Struct && f.Type() != reflect.TypeOf(sync.Mutex{}) {
+				if t, m, ok := find(f); ok {
+					return t, m, true
+				}
+			}
+		}
+		return reflect.Value{}, nil, false
+	}
+	tab, mu, ok := find(reflect.ValueOf(p).Elem())
+	if !ok {
+		return -1
+	}
+	mu.Lock()
+	defer mu.Unlock()
+	return tab.Len()
 }
 
 // ---- controlled schedules
@@ -283,6 +320,7 @@ func vC04Run(c vSx) (vSx, []vC04Fail, bool) {
 	}
 	valid := true
 	dead := false // a transport failure has been injected: the bufio writer is dead
+	curCS := uint32(128) // the output chunk size announced so far (RTMP default 128)
 	for _, e := range c.l[1].l {
 		if !e.isList() || len(e.l) < 2 || !e.l[0].isInt() || !e.l[1].isInt() {
 			valid = false
@@ -298,9 +336,10 @@ func vC04Run(c vSx) (vSx, []vC04Fail, bool) {
 			rw.onWrite = func(b []byte) error { return nil }
 			sc := NewSetChunkSize()
 			sc.ChunkSize = uint32(k)
-			if err := p.WritePacket(sc, 0); err != nil || p.output.opt.chunkSize != uint32(k) {
-				bad("write-result", fmt.Sprintf("SetChunkSize(%d): error %v, output chunk size now %d", k, err, p.output.opt.chunkSize))
+			if err := p.WritePacket(sc, 0); err != nil {
+				bad("write-result", fmt.Sprintf("SetChunkSize(%d): error %v", k, err))
 			}
+			curCS = uint32(k) // whether the writer really applies it is judged by the byte totals below
 			continue
 		}
 		if k < 0 || k >= len(reqs) {
@@ -323,7 +362,7 @@ func vC04Run(c vSx) (vSx, []vC04Fail, bool) {
 			// the request has been handed to the transport when ALL bytes of its reference
 			// encoding have arrived -- in whichever Write call that happens (bufio.Writer passes
 			// large writes through and flushes when full, so it can be before the final Flush)
-			need := vC04WireLen(reqs[k], p.output.opt.chunkSize)
+			need := vC04WireLen(reqs[k], curCS)
 			got, complete := 0, false
 			rw.onWrite = func(b []byte) error {
 				if reqs[k].fail {
